@@ -35,6 +35,7 @@ type Scenario struct {
 	Heights int              `json:"heights"` // blocks to produce past the preamble
 	Skew    []time.Duration  `json:"skew"`    // per node clock skew (nil = none)
 	TxAt    map[string][]int `json:"tx_at"`   // catalogue tx name -> nodes whose mempool holds it before the services start
+	Pad     int              `json:"pad"`     // empty blocks added to every ledger before the services start (slides the primary)
 }
 
 // Event kinds.
@@ -228,7 +229,7 @@ func NewWorld(s *Setup, sc Scenario) (w *World, err error) {
 	time.Sleep(baseShift)
 	w.Nodes = make([]*NodeRT, s.Fam.N)
 	for i := 0; i < s.Fam.N; i++ {
-		c, e := chainx.New(chainx.Opts{Multi: true, Proto: s.Proto, Store: s.freshStore()})
+		c, e := chainx.New(chainx.Opts{Multi: true, SRIH: s.SRIH, Proto: s.Proto, Store: s.freshStore()})
 		if e != nil {
 			w.Close()
 			return nil, fmt.Errorf("node %d: %w", i, e)
@@ -236,6 +237,17 @@ func NewWorld(s *Setup, sc Scenario) (w *World, err error) {
 		if c.BC.BlockHeight() != s.H0 {
 			w.Close()
 			return nil, fmt.Errorf("node %d: height %d after restore, want %d", i, c.BC.BlockHeight(), s.H0)
+		}
+		for k := 0; k < sc.Pad && k < len(s.Pads); k++ {
+			pb, e := chainx.DecodeBlock(s.Pads[k], s.SRIH)
+			if e == nil {
+				e = c.BC.AddBlock(pb)
+			}
+			if e != nil {
+				c.Close()
+				w.Close()
+				return nil, fmt.Errorf("node %d: pad block %d: %w", i, k, e)
+			}
 		}
 		var skew time.Duration
 		if i < len(sc.Skew) {
@@ -819,7 +831,7 @@ func (w *World) CheckSafety() []Problem {
 		ps = append(ps, Problem{"fatal", f})
 	}
 	_, maxH := w.Heights()
-	for h := w.S.H0 + 1; h <= maxH; h++ {
+	for h := w.H0() + 1; h <= maxH; h++ {
 		var first string
 		who := -1
 		for _, n := range w.Nodes {
@@ -966,7 +978,7 @@ func (w *World) Digest() string {
 	for _, n := range w.Nodes {
 		bc := n.C.BC
 		fmt.Fprintf(h, "N%d h%d s%v d%v|", n.Idx, bc.BlockHeight(), n.Silent, n.Dead)
-		for x := w.S.H0 + 1; x <= bc.BlockHeight(); x++ {
+		for x := w.H0() + 1; x <= bc.BlockHeight(); x++ {
 			if b, err := bc.GetBlock(bc.GetHeaderHash(x)); err == nil {
 				fmt.Fprintf(h, "b%d:p%d:", x, b.PrimaryIndex)
 				for _, tx := range b.Transactions {
@@ -1078,3 +1090,6 @@ func (w *World) MissingOnChain(n int) []string {
 	}
 	return miss
 }
+
+// H0 is the ledger height the services start from (preamble + pad blocks).
+func (w *World) H0() uint32 { return w.S.H0 + uint32(w.Sc.Pad) }
